@@ -100,7 +100,7 @@ def find_function(src, name, sig=None, nth=None, scope=None):
     cands = []
     pat = re.compile(r'(?<![\w:.>])' + re.escape(name) + r'\s*\(')
     if name.startswith('operator'):
-        pat = re.compile(re.escape(name).replace(r'\ ', r'\s*') + r'\s*\(')
+        pat = re.compile(r'operator\s*' + re.escape(name[len('operator'):].strip()) + r'\s*\(')
     for m in pat.finditer(masked, lo, hi):
         po = m.end() - 1
         try:
